@@ -2,7 +2,9 @@
 
 Decided: lock discipline (incl. explicit acquire/release on every path), monitor discipline, no sleep under the lock,
 re-validation of the head after re-acquiring, closed => end marker, FIFO container operations.
-Not decided: "never before its delay" (clock arithmetic).
+"Never before its delay" is decided in its structural part (rule delay-elapsed-before-hand-out): on every path that hands
+out a delayed head, the last blocking operation is followed by a test that `insert time + delay - now` is not positive, `now`
+being read after that operation from the clock put() stamps with.  What the clock returns is not modelled.
 """
 
 from __future__ import annotations
@@ -62,6 +64,155 @@ def revalidate_head(ctx, RV, gpaths, ci):
             ctx.check(bool(ret) and ret[0].text.endswith("'"), RV, f"{CLS}.get returns the validated head", "get() does not return the element it validated", f"{ci.module.relpath}:{p.evs[i].line}")
     if npop == 0:
         raise AnalysisError("anchor vanished: no popleft in DelayedQueue.get")
+
+
+def put_layout(P):
+    """(index of the insert-time component, index of the delay flag, clock function text) of the tuples put() appends."""
+    ci = P.cls(CLS)
+    fi = ci.methods.get("put")
+    if fi is None:
+        raise AnalysisError("anchor vanished: DelayedQueue.put")
+    params = [a.arg for a in fi.node.args.args + fi.node.args.kwonlyargs if a.arg != "self"]
+    for n in ast.walk(fi.node):
+        if isinstance(n, ast.Call) and isinstance(n.func, ast.Attribute) and n.func.attr == "append" and dotted(n.func.value) == "self._queue" and n.args and isinstance(n.args[0], ast.Tuple):
+            t_idx = d_idx = clock = None
+            for i, el in enumerate(n.args[0].elts):
+                if isinstance(el, ast.Call) and dotted(el.func) in ("time.time", "time.monotonic", "time.perf_counter"):
+                    t_idx, clock = i, dotted(el.func)
+                elif isinstance(el, ast.Name) and len(params) > 1 and el.id == params[1]:
+                    d_idx = i
+            if t_idx is not None and d_idx is not None:
+                return t_idx, d_idx, clock
+    raise AnalysisError("anchor vanished: put() does not append (element, clock(), delay)")
+
+
+def linear(t, atoms):
+    """Coefficients of `t` over the atom classifier `atoms(node) -> name | None`; None if `t` is not linear in them."""
+    if isinstance(t, ast.BinOp) and isinstance(t.op, (ast.Add, ast.Sub)):
+        a, b = linear(t.left, atoms), linear(t.right, atoms)
+        if a is None or b is None:
+            return None
+        sign = 1 if isinstance(t.op, ast.Add) else -1
+        out = dict(a)
+        for k, v in b.items():
+            out[k] = out.get(k, 0) + sign * v
+        return out
+    if isinstance(t, ast.UnaryOp) and isinstance(t.op, ast.USub):
+        a = linear(t.operand, atoms)
+        return None if a is None else {k: -v for k, v in a.items()}
+    if isinstance(t, ast.Constant) and isinstance(t.value, (int, float)) and t.value == 0:
+        return {}
+    k = atoms(t)
+    return None if k is None else {k: 1}
+
+
+def delay_elapsed(ctx, RD, P, gpaths, ci):
+    t_idx, d_idx, clock = put_layout(P)
+    ctx.extra["queue_tuple_layout"] = {"insert_time": t_idx, "delay_flag": d_idx, "clock": clock}
+
+    def atoms(n):
+        txt = ast.unparse(n)
+        if txt == f"self._queue[0][{t_idx}]":
+            return "insert"
+        if txt == "self.delay_sec":
+            return "delay"
+        if isinstance(n, ast.Call) and dotted(n.func) == clock and not n.args:
+            return "now"
+        return None
+
+    def elapsed_fact(term, truth, env):
+        """True iff the decided comparison establishes insert + delay - now <= 0 (boundary-insensitive)."""
+        if isinstance(term, ast.UnaryOp) and isinstance(term.op, ast.Not):
+            return elapsed_fact(term.operand, not truth, env)
+        if not (isinstance(term, ast.Compare) and len(term.ops) == 1):
+            return False
+        op = term.ops[0]
+        if not isinstance(op, (ast.Gt, ast.GtE, ast.Lt, ast.LtE)):
+            return False
+
+        class _S(ast.NodeTransformer):
+            def visit_Name(self, n):
+                return env.get(n.id, n)
+
+        import copy
+
+        diff = ast.BinOp(_S().visit(copy.deepcopy(term.left)), ast.Sub(), _S().visit(copy.deepcopy(term.comparators[0])))
+        lf = linear(diff, atoms)
+        if lf is None:
+            return False
+        lf = {k: v for k, v in lf.items() if v}
+        positive = isinstance(op, (ast.Gt, ast.GtE)) == bool(truth)  # the established fact is  diff > 0  (True) or diff < 0 (False)
+        if lf == {"insert": 1, "delay": 1, "now": -1}:
+            return not positive
+        if lf == {"insert": -1, "delay": -1, "now": 1}:
+            return positive
+        return False
+
+    def blocking(e):
+        if e.kind == "wait":
+            return True
+        if e.kind == "call" and e.extra.get("func", "") in ("time.sleep", "sleep"):
+            return True
+        return False
+
+    def loop_env(L):
+        """For a loop that blocks: the variables re-assigned, after the last blocking operation of every iteration, from a fresh
+        clock read -> their defining terms (keyed by the engine's name for the value after the loop)."""
+        env = {}
+        line = None
+        for b in L.extra["paths"]:
+            if b.outcome is not NORMAL and b.outcome[0] not in ("continue",):
+                continue
+            last_block = max([i for i, e in enumerate(b.evs) if blocking(e)], default=-1)
+            for i, e in enumerate(b.evs):
+                if e.kind == "assign" and i > last_block and isinstance(e.extra.get("term"), ast.AST):
+                    env.setdefault(e.extra["name"], []).append(e.extra["term"])
+        return env
+
+    ninst = 0
+    for p in walk_body(gpaths):
+        pops = [i for i, e in enumerate(p.evs) if e.kind == "call" and re.fullmatch(r"self\._queue\.(popleft|pop)", e.extra.get("func", ""))]
+        if not pops:
+            continue
+        i = pops[0]
+        flag = [e for e in p.evs[:i] if e.kind == "cond" and e.text == f"self._queue[0][{d_idx}]"]
+        if flag and not flag[-1].extra.get("truth"):
+            continue  # an element without delay
+        heads = [j for j, e in enumerate(p.evs[:i]) if e.kind == "subscript" and e.extra.get("container") == "self._queue" and e.extra.get("key") == "0"]
+        start = heads[0] if heads else 0
+        last_block = None
+        env = {}
+        for j in range(start, i):
+            e = p.evs[j]
+            if blocking(e):
+                last_block, env = j, {}
+            elif e.kind == "loop" and any(blocking(x) for b in walk_body(e.extra["paths"]) for x in b.evs):
+                last_block = j
+                env = {}
+                for name, terms in loop_env(e).items():
+                    if len({ast.unparse(t) for t in terms}) == 1:
+                        for k in (f"{name}@afterL{getattr(e.node, 'lineno', 0)}",):
+                            env[k] = terms[0]
+        ok = False
+        for j in range((last_block if last_block is not None else start) + 1, i):
+            e = p.evs[j]
+            if e.kind == "cond" and isinstance(e.extra.get("term"), ast.AST) and elapsed_fact(e.extra["term"], e.extra.get("truth"), env):
+                ok = True
+        ninst += 1
+        blk = p.evs[last_block] if last_block is not None else None
+        ctx.check(
+            ok,
+            RD,
+            f"{CLS}.get hand-out after {('`' + (blk.raw or blk.text)[:50] + '`') if blk is not None else 'no blocking operation'}",
+            "a delayed head is popped on a path where, after the last blocking operation"
+            + (f" `{(blk.raw or blk.text)[:60]}`" if blk is not None else "")
+            + f", nothing establishes `self._queue[0][{t_idx}] + self.delay_sec - {clock}() <= 0`: a notify (any later put) or an early wake-up hands the "
+            "first half of a move out before its partner had the full delay to arrive (the rename is delivered as two unpaired halves)",
+            f"{ci.module.relpath}:{p.evs[i].line}",
+            {"path_tail": [x.text[:70] for x in p.evs[max(start, i - 12) : i] if x.kind in ("cond", "call", "wait", "loop")]},
+        )
+    if ninst == 0:
+        raise AnalysisError("anchor vanished: get() never pops a delayed head")
 
 
 def get_paths(P):
@@ -332,6 +483,16 @@ def run(ctx) -> None:
                 okr, msgr = False, "the predicate held for an element but nothing was deleted"
     ctx.check(okr and ndel2 > 0, RX, f"{CLS}.remove", msgr or "remove() never deletes", ci.methods["remove"].loc)
 
+    # ---------------------------------------------------------------- the delay has elapsed when a delayed head is handed out
+    RD = ctx.rule(
+        "C17/delay-elapsed-before-hand-out",
+        "on every path of get() that pops a delayed head, the last blocking operation (sleep, wait) before the pop is followed by a "
+        "test establishing `insert time + delay_sec - now <= 0`, with `now` read after that operation from the clock put() stamps with "
+        "(a single timed wait or sleep is not enough: a notify or an early wake-up ends it before the delay is over)",
+        floor=1,
+    )
+    delay_elapsed(ctx, RD, P, gpaths, ci)
+
     # ---------------------------------------------------------------- indexed deletion is atomic with the search
     RA = ctx.rule("C17/search-and-delete-atomic", "an element is deleted by index only inside the critical section in which that index was found by enumerating the live deque (no release in between, no snapshot)", floor=1)
     ndel = 0
@@ -408,6 +569,13 @@ VARIANTS = [
     dict(name="B remove loses the element", expect="fire", rule="C17/remove-returns-the-match", edits=[(DQ, "                    del self._queue[i]\n                    return elem", "                    del self._queue[i]\n                    return None")]),
     dict(name="B remove returns without deleting", expect="fire", rule="C17/remove-returns-the-match", edits=[(DQ, "                    del self._queue[i]\n                    return elem", "                    return elem")]),
     dict(name="B remove searches a snapshot outside the lock", expect="fire", rule="C17/search-and-delete-atomic", edits=[(DQ, "        with self._lock:\n            for i, (elem, *_) in enumerate(self._queue):\n                if predicate(elem):\n                    del self._queue[i]\n                    return elem\n        return None", "        with self._lock:\n            snapshot = list(self._queue)\n        for i, (elem, *_) in enumerate(snapshot):\n            if predicate(elem):\n                with self._lock:\n                    del self._queue[i]\n                return elem\n        return None")]),
+    dict(name="B single sleep without re-check", expect="fire", rule="C17/delay-elapsed-before-hand-out", edits=[(DQ, "                while time_left > 0:\n                    time.sleep(time_left)\n                    time_left = insert_time + self.delay_sec - time.time()\n", "                if time_left > 0:\n                    time.sleep(time_left)\n")]),
+    dict(name="B single timed wait instead of the sleep loop", expect="fire", rule="C17/delay-elapsed-before-hand-out", edits=[(DQ, "            self._not_empty.release()\n\n            # wait for delay if required\n            if delay:\n                time_left = insert_time + self.delay_sec - time.time()\n                while time_left > 0:\n                    time.sleep(time_left)\n                    time_left = insert_time + self.delay_sec - time.time()\n", "\n            if delay:\n                time_left = insert_time + self.delay_sec - time.time()\n                if time_left > 0:\n                    self._not_empty.wait(time_left)\n            self._not_empty.release()\n")]),
+    dict(name="B delay subtracted instead of added", expect="fire", rule="C17/delay-elapsed-before-hand-out", edits=[(DQ, "time_left = insert_time + self.delay_sec - time.time()", "time_left = insert_time - self.delay_sec - time.time()")]),
+    dict(name="B loop re-computes from a stale clock read", expect="fire", rule="C17/delay-elapsed-before-hand-out", edits=[(DQ, "                time_left = insert_time + self.delay_sec - time.time()\n                while time_left > 0:\n                    time.sleep(time_left)\n                    time_left = insert_time + self.delay_sec - time.time()\n", "                now = time.time()\n                time_left = insert_time + self.delay_sec - now\n                while time_left > 0:\n                    time.sleep(time_left)\n                    time_left = 0\n")]),
+    dict(name="B other clock than put()", expect="fire", rule="C17/delay-elapsed-before-hand-out", edits=[(DQ, "                    time_left = insert_time + self.delay_sec - time.time()\n\n", "                    time_left = insert_time + self.delay_sec - time.monotonic()\n\n")]),
+    dict(name="E sleep loop in break form", expect="silent", edits=[(DQ, "                time_left = insert_time + self.delay_sec - time.time()\n                while time_left > 0:\n                    time.sleep(time_left)\n                    time_left = insert_time + self.delay_sec - time.time()\n", "                while True:\n                    time_left = insert_time + self.delay_sec - time.time()\n                    if time_left <= 0:\n                        break\n                    time.sleep(time_left)\n")]),
+    dict(name="E elapsed test written the other way round", expect="silent", edits=[(DQ, "                time_left = insert_time + self.delay_sec - time.time()\n                while time_left > 0:\n                    time.sleep(time_left)\n                    time_left = insert_time + self.delay_sec - time.time()\n", "                while time.time() - insert_time < self.delay_sec:\n                    time.sleep(insert_time + self.delay_sec - time.time())\n")]),
     dict(name="E with-statement for explicit pairs in put", expect="silent", edits=[(DQ, "        self._lock.acquire()\n        self._queue.append((element, time.time(), delay))\n        self._not_empty.notify()\n        self._lock.release()", "        with self._not_empty:\n            self._queue.append((element, time.time(), delay))\n            self._not_empty.notify()")]),
     dict(name="E notify -> notify_all", expect="silent", edits=[(DQ, "        self._queue.append((element, time.time(), delay))\n        self._not_empty.notify()", "        self._queue.append((element, time.time(), delay))\n        self._not_empty.notify_all()")]),
     dict(name="E closed flag set under the lock", expect="silent", edits=[(DQ, "        self._closed = True\n        # Interrupt the blocking _not_empty.wait() call in get\n        self._not_empty.acquire()\n        self._not_empty.notify()", "        # Interrupt the blocking _not_empty.wait() call in get\n        self._not_empty.acquire()\n        self._closed = True\n        self._not_empty.notify()")]),
